@@ -255,6 +255,16 @@ func (h *NFSProcedureHandler) handleMkdir(body io.Reader, reply *RPCReply, authC
 		return reply, nil
 	}
 
+	// The directory exists now: drop what the caches say about the parent, about
+	// names that were looked up in it and found missing, and about the new path
+	// itself (CREATE and SYMLINK do the same in the operation layer).
+	h.server.handler.attrCache.Invalidate(node.path)
+	h.server.handler.attrCache.InvalidateNegativeInDir(node.path)
+	h.server.handler.attrCache.Invalidate(dirPath)
+	if h.server.handler.dirCache != nil {
+		h.server.handler.dirCache.Invalidate(node.path)
+	}
+
 	// Apply uid/gid: use effective UID/GID from auth context as default,
 	// only allow explicit override if caller is root (not squashed).
 	{
